@@ -269,6 +269,24 @@ def generate(seed: int, tier: str) -> Dict[str, Any]:
         raw.setdefault("t4", {})["enabled"] = True
         raw.pop("scheduler", None)
         ops = [{"op": "turn", "agent": agent, "text": text, "turn_id": i, "now_ms": E.T0_MS} for i in range(r.randint(3, 5))]
+    if r.chance(0.08) and len(world["graphs"]) >= 2:
+        # slice budgets shared by the graphs of one turn: what is left for a later graph depends on what the earlier ones used, so the
+        # same graph with the same seeds is propagated under different caps from turn to turn (the version stands still: T4 off)
+        agent = sorted(world["agents"])[0]
+        gl = sorted(world["graphs"])
+        for w in (world, world_b):
+            w["agents"][agent] = list(gl)
+        labelled = {g: [n["label"] for n in world["graphs"][g]["nodes"] if n.get("label")] for g in gl}
+        last = gl[-1]
+        if labelled[last] and any(labelled[g] for g in gl[:-1]):
+            t_last = " ".join(r.sample(labelled[last], min(len(labelled[last]), r.randint(1, 3)))).lower()
+            t_all = " ".join([r.choice(labelled[g]).lower() for g in gl[:-1] if labelled[g]] + [t_last])
+            raw["scheduler"] = {"enabled": True, "quantum_ms": 10**9, "budgets": dict({"wall_ms": 2 * 10**9}, **r.choice(
+                [{"t1_pops": 1}, {"t1_pops": 2}, {"t1_pops": 3}, {"t1_pops": 5}, {"t1_iters": 1}, {"t1_iters": 2}, {"t1_pops": 4, "t1_iters": 2}]))}
+            raw.setdefault("t1", {})["cache"] = {"enabled": True, "max_entries": 512, "ttl_s": 10_000_000}
+            raw.setdefault("t4", {})["enabled"] = False
+            seq = r.choice([[t_all, t_last, t_all], [t_last, t_all, t_last], [t_all, t_last, t_last, t_all]])
+            ops = [{"op": "turn", "agent": agent, "text": t, "turn_id": i, "now_ms": E.T0_MS} for i, t in enumerate(seq)]
     return {"world": world, "world_b": world_b, "cfg": raw, "ops": ops}
 
 
